@@ -369,6 +369,9 @@ MORE_THM = {
  "C06": " For cacache's codec: a record the reader reports is spelled out by a line `hex(sha256 json) TAB json` of the file "
         "(no_forgery_cacache, decLine_spells). A destroyed newline fuses two records into a line with two TABs that does not "
         "decode, and the bucket loses exactly these two (fused_line_undecodable, destroyed_newline_exact).",
+ "C05": " Representation independence (Props/C05x, Lemmas/SpecLaws): two healthy caches with the same key -> entry and "
+        "address -> bytes maps answer every history identically and reach the same maps again, also with listings, full "
+        "removals and clear in the history (lookups_depend_on_abstraction_only, _ext).",
  "C07": " No finished insertion is lost: in the serial history the last operation on the key is that insertion or a later "
         "one, and lookups answer accordingly (no_finished_insert_lost). exists_hash next to any whole writer answers as before or "
         "as after it; two by-address writers of any data serialize with no collision hypothesis.",
